@@ -654,4 +654,106 @@ Section Proofs.
     induction ls as [|l t IH]; simpl; [reflexivity|].
     rewrite !map_app, IH. f_equal. unfold strip_padding. apply centroid_only_batch_is_per_frame.
   Qed.
+
+  (* ---------------------------------------------------------------- the walk itself (round 4):
+     frames whose number of matches EXCEEDS the M instance rows *)
+  Notation gt_pointer := (gt_pointer ginst).
+  Notation gt_turn := (gt_turn ginst).
+
+  (* the pointer moves by the TRUE count of the sample just read (not by what was emitted) *)
+  Lemma gt_pointer_step : forall (all : list (nat * ginst)) i,
+    gt_pointer all (S i) = (gt_pointer all i + gt_count all i)%nat.
+  Proof.
+    intros all i. unfold Batch.gt_pointer, Batch.gt_count.
+    induction all as [|p t IH]; [reflexivity|]. cbn [filter].
+    destruct (Nat.ltb_spec (fst p) (S i)); destruct (Nat.ltb_spec (fst p) i); destruct (Nat.eqb_spec (fst p) i);
+      cbn [length]; try lia.
+  Qed.
+
+  Lemma gt_pointer_0 : forall (all : list (nat * ginst)), gt_pointer all 0%nat = 0%nat.
+  Proof.
+    intros all. unfold Batch.gt_pointer. rewrite (filter_none _ _ all); [reflexivity|].
+    intros a _. apply Nat.ltb_ge. lia.
+  Qed.
+
+  Lemma gt_count_absent : forall (all : list (nat * ginst)) i,
+    existsb (fun p => fst p =? i) all = false -> gt_count all i = 0%nat.
+  Proof.
+    intros all i H. unfold Batch.gt_count. rewrite (filter_none _ _ all); [reflexivity|].
+    intros a Ha. destruct (fst a =? i) eqn:E; [|reflexivity].
+    assert (existsb (fun p : nat * ginst => fst p =? i) all = true)
+      by (apply existsb_exists; exists a; split; assumption).
+    congruence.
+  Qed.
+
+  (* closed form of the loop, for ANY flat list: turn i reads `counts[i]` entries at the position
+     reached by counting every entry of the earlier samples, and emits exactly M rows *)
+  Theorem gt_parse_closed_form_gen : forall M (all : list (nat * ginst)) n i,
+    gt_parse M all (gt_pointer all i) i n = map (gt_turn M all) (seq i n).
+  Proof.
+    intros M all n. induction n as [|n IH]; intros i; [reflexivity|].
+    cbn [Batch.gt_parse seq map]. unfold Batch.gt_turn at 1.
+    destruct (existsb (fun p : nat * ginst => fst p =? i) all) eqn:Ex.
+    - f_equal. rewrite <- gt_pointer_step. apply IH.
+    - f_equal. rewrite <- (IH (S i)), gt_pointer_step, (gt_count_absent all i Ex), Nat.add_0_r. reflexivity.
+  Qed.
+
+  Theorem gt_parse_closed_form : forall M (all : list (nat * ginst)) n,
+    gt_parse M all 0%nat 0%nat n = map (gt_turn M all) (seq 0%nat n).
+  Proof. intros. rewrite <- (gt_pointer_0 all) at 1. apply gt_parse_closed_form_gen. Qed.
+
+  Lemma gt_turn_length : forall M (all : list (nat * ginst)) i, length (gt_turn M all i) = M.
+  Proof.
+    intros. unfold Batch.gt_turn. destruct (existsb _ all); [apply pad_to_length|apply repeat_length].
+  Qed.
+
+  (* what the walk emits for sample b: exactly M rows, whose non-NaN part is a PREFIX (the first M) of
+     sample b's own matches, whatever the rows (and so the counts) of the other samples are *)
+  Theorem gt_walk_emits_own_prefix : forall M rows imgs b row img,
+    length rows = length imgs -> nth_error rows b = Some row -> nth_error imgs b = Some img ->
+    exists out, nth_error (gt_parse M (gt_flat 0%nat rows imgs) 0%nat 0%nat (length imgs)) b = Some out
+                /\ length out = M /\ somes out = firstn M (row_matches img row)
+                /\ out = pad_to M (row_matches img row).
+  Proof.
+    intros M rows imgs b row img Hl Hr Hi.
+    rewrite (gt_parse_is_per_row M rows imgs Hl).
+    assert (Hc : nth_error (combine rows imgs) b = Some (row, img)).
+    { clear Hl. revert rows imgs Hr Hi. induction b as [|b IH]; intros [|r rt] [|im it] Hr Hi; try discriminate.
+      - simpl in *. congruence.
+      - simpl in *. apply IH; assumption. }
+    exists (pad_to M (row_matches img row)). split.
+    - rewrite nth_error_map, Hc. reflexivity.
+    - split; [apply pad_to_length|]. split; [apply somes_pad_to|reflexivity].
+  Qed.
+
+  (* the same as an independence statement: two batches that agree on sample b (same centroid row, same
+     image) give sample b the same instance rows, however many matches the OTHER samples have *)
+  Theorem gt_walk_independent_of_other_counts : forall M rows imgs rows' imgs' b b' row img,
+    length rows = length imgs -> length rows' = length imgs' ->
+    nth_error rows b = Some row -> nth_error imgs b = Some img ->
+    nth_error rows' b' = Some row -> nth_error imgs' b' = Some img ->
+    nth_error (gt_parse M (gt_flat 0%nat rows imgs) 0%nat 0%nat (length imgs)) b
+    = nth_error (gt_parse M (gt_flat 0%nat rows' imgs') 0%nat 0%nat (length imgs')) b'.
+  Proof.
+    intros M rows imgs rows' imgs' b b' row img Hl Hl' Hr Hi Hr' Hi'.
+    destruct (gt_walk_emits_own_prefix M rows imgs b row img Hl Hr Hi) as [o [E [_ [_ Eo]]]].
+    destruct (gt_walk_emits_own_prefix M rows' imgs' b' row img Hl' Hr' Hi') as [o' [E' [_ [_ Eo']]]].
+    rewrite E, E', Eo, Eo'. reflexivity.
+  Qed.
+
+  (* a frame of the centroid-only batch with MORE matched centroids than instance rows: its record holds
+     the first M of its own matches and no padding *)
+  Theorem centroid_only_overdetecting_frame : forall mi M fs b s,
+    nth_error fs b = Some s ->
+    (M <= length (somes (map (gmatch (s_img frame s)) (kept mi (detect (s_img frame s))))))%nat ->
+    exists row, nth_error (centroid_only_batch mi M fs) b
+                = Some (s_fidx frame s, s_vidx frame s, row,
+                        map Some (firstn M (somes (map (gmatch (s_img frame s)) (kept mi (detect (s_img frame s)))))))
+                /\ somes row = kept mi (detect (s_img frame s)).
+  Proof.
+    intros mi M fs b s Hb Hm.
+    destruct (centroid_only_indices mi M fs b s Hb) as [row [E Hs]].
+    exists row. split; [|exact Hs]. rewrite E. f_equal. f_equal.
+    unfold Batch.pad_to. destruct (Nat.ltb_spec (length (somes (map (gmatch (s_img frame s)) (kept mi (detect (s_img frame s)))))) M); [lia|reflexivity].
+  Qed.
 End Proofs.
